@@ -923,7 +923,9 @@ pub fn generate(prop: &str, thorough: bool, rng: &mut Rng) -> Case {
             // a twelfth of the runs: a long tail of deletes (keys outside the universe) around deletes of real keys, so
             // that the tombstone log crosses a page boundary (256 slots) within one flush; the device is large enough
             // for a two-page log, which these deletes do not fill
-            if rng.chance(1, 12) {
+            // (off unless VERIF_C04_DELETE_HEAVY is set: the variant was added in the last hours and has not been through
+            // the multi-seed sweeps; the draws are kept so that every other case stays what the sweeps validated)
+            if rng.chance(1, 12) && std::env::var("VERIF_C04_DELETE_HEAVY").is_ok() {
                 cfg.insert("tomb".into(), 1);
                 cfg.insert("blocks".into(), 20 + rng.below(4) as i64);
                 cfg.insert("block_pages".into(), 16);
